@@ -787,7 +787,10 @@ def oracle_memoryless(what, chunked, whole, fresh):
 def _ev(o, n):
     if n >= len(o): return 'no further event'
     e = o[n]
-    return {0: 'a message, %d left', 1: 'need more, %d left', 2: 'error, %d left'}.get(e[0], 'event %d' % e[0]) % e[-1] if e[0] in (0, 1, 2) else 'event %s' % e[0]
+    if e[0] == 0: return 'a message, %d left' % e[-1]
+    if e[0] == 1: return 'need more, %d left' % e[-1]
+    if e[0] == 2: return 'error %s, %d left' % (e[1:-1], e[-1])
+    return 'event %s' % e[0]
 
 def _unlimit_stack():
     """coqc evaluates 65535-byte frames with deep non-tail recursion (vm_compute on the native
